@@ -304,4 +304,74 @@ def logMsg (l : Logger) (skipLogging : Bool) (m : Msg) : Msg × Option Record :=
     (snapshotMsg o m, some (.text (textBanner m ++ reader (snapshot o m))))
   | .snapshot o => (snapshotMsg o m, some (.view (snapshot o m)))
 
+/-! ### logger error paths
+
+A logger may give up with an error after it has touched the message: `har.postData` when the body
+does not parse as the form / multipart type it declares, `har.NewResponse` and the text logger with
+`decode` when the body does not decode as its `Content-Encoding`. The proxy only logs a modifier
+error and forwards the message. The verdicts of the trusted parsers (`mime/multipart`,
+`url.ParseQuery`, `compress/gzip`, `compress/flate`) on the message body are parameters. -/
+
+structure Trusted where
+  /-- the request body parses as the form / multipart type its Content-Type declares -/
+  postParses : Bool
+  /-- `gzip.NewReader` accepts the head of the body (`flate.NewReader` never fails) -/
+  decodeOpens : Bool
+  /-- the decompressor reads the body to its end without error -/
+  decodes : Bool
+  deriving DecidableEq, Repr
+
+def isCompressed (c : Bytes) : Bool := c == gzipTok || c == deflateTok
+
+/-- `mv.BodyReader(Decode())` returns a reader: only `gzip.NewReader` can refuse, and it does on
+the empty body section of a snapshot taken without the body. -/
+def decodeOpensOn (t : Trusted) (o : Opts) (m : Msg) : Bool :=
+  if compressOf m == gzipTok then (if captures o m then t.decodeOpens else false) else true
+
+/-- …and `ioutil.ReadAll` of that reader succeeds. Without the body the section is empty: the
+chunked reader and both decompressors then report an unexpected EOF. -/
+def decodesOn (t : Trusted) (o : Opts) (m : Msg) : Bool :=
+  if captures o m then (if isCompressed (compressOf m) then t.decodeOpens && t.decodes else true)
+  else !(isChunked m.te || isCompressed (compressOf m))
+
+/-- `har.postData` with body logging on, up to the parsing switch: snapshot, `ReadAll(req.Body)`,
+`req.Body = NopCloser(NewReader(raw))`. -/
+def harReadPost (m : Msg) : Msg :=
+  let m1 := snapshotMsg noOpts m
+  let (raw, m2) := readAll m1
+  { m2 with body := m2.body.map fun _ => raw }
+
+structure Outcome where
+  msg : Msg
+  record : Option Record
+  err : Bool
+  deriving DecidableEq, Repr
+
+/-- `logMsg` with the error returns: the message as it is handed on, what was recorded, and whether
+the modifier returned an error. -/
+def logMsgT (t : Trusted) (l : Logger) (skipLogging : Bool) (m : Msg) : Outcome :=
+  match l with
+  | .snapshot o => ⟨snapshotMsg o m, some (.view (snapshot o m)), false⟩
+  | .marbl =>
+    if skipLogging then ⟨m, none, false⟩
+    else ⟨m, some (.marbl (m.hdr.length + (if m.isReq then 8 else 4))), false⟩
+  | .har post body =>
+    if skipLogging then ⟨m, none, false⟩ else
+    let ct := headerGet m.hdr ctKey
+    if m.isReq then
+      if harHasPostData m && post.decide ct then
+        -- the parse error is returned after the body has been read and re-installed
+        if t.postParses then ⟨harReadPost m, some (.har true), false⟩ else ⟨harReadPost m, none, true⟩
+      else ⟨m, some (.har false), false⟩
+    else
+      if body.decide ct then
+        if decodesOn t noOpts m then ⟨snapshotMsg noOpts m, some (.har true), false⟩
+        else ⟨snapshotMsg noOpts m, none, true⟩
+      else ⟨m, some (.har false), false⟩
+  | .text headersOnly decode =>
+    if skipLogging then ⟨m, none, false⟩ else
+    let o : Opts := { skipBody := headersOnly, cts := [] }
+    if decode && !decodeOpensOn t o m then ⟨snapshotMsg o m, none, true⟩
+    else ⟨snapshotMsg o m, some (.text (textBanner m ++ reader (snapshot o m))), false⟩
+
 end Martian.MessageView
